@@ -1,17 +1,20 @@
 package props
 
 import (
+	"fmt"
+	"go/ast"
 	"strings"
 
 	"verif/internal/an"
+	"verif/internal/flow"
 )
 
 func init() {
 	register(&Property{
 		ID:        "C14",
 		Technique: "static analysis: ORDER/FOLLOW rules on the backup request, the checkpoint worker and the restore path; who-may-call enumeration; guard implication by truth table on the purge decision; argument provenance on canonical terms",
-		Explanation: "Decides: (B1) pending in-memory caches are flushed before the checkpoint is requested; (B2) the checkpoint is started inside the apply loop: beginSnapshot asks for it outside its goroutine and is called only from maybeTriggerSnapshot <- applyCommits, GetSnapshot returns only after the checkpoint was started (WaitReady), the result is read only after completion (GetResult waits for done and nothing else), the worker signals started from the engine checkpoint and closes done on every exit; (B3) copying into place never truncates an existing (possibly hard-linked) destination: it is unlinked before it is created; the restore removes and creates files in the data directory only; (B4) a checkpoint is purged only when its index is below the latest snapshot index, which is read from the atomically updated field; (B5) restore closes the engine before touching files and re-opens it after the copies; a kept sst file was verified identical.",
-		NotDecided: "equality of the restored data with the state at index i (engine behaviour), rsync, repeated/interleaved backups' timing, that the HLL cache flush is complete (cache internals).",
+		Explanation: "Decides: (B1) pending in-memory caches are flushed before the checkpoint is requested; (B2) the checkpoint is started inside the apply loop: beginSnapshot asks for it outside its goroutine and is called only from maybeTriggerSnapshot <- applyCommits, GetSnapshot returns only after the checkpoint was started (WaitReady), the result is read only after completion (GetResult waits for done and nothing else), the worker signals started from the engine checkpoint and closes done on every exit; (B3) copying into place never truncates an existing (possibly hard-linked) destination: it is unlinked before it is created; the restore removes and creates files in the data directory only; (B4) a checkpoint is purged only when its index is below the latest snapshot index, which is read from the atomically updated field; (B5) restore closes the engine before touching files and re-opens it after the copies; a kept sst file was verified identical; reopening re-creates the HLL cache, the index manager and the default write batch instead of keeping those bound to the replaced engine; (B2, engines) the mem engine notifies started only after its iterator pinned the view and saves through that iterator; the rocksdb/pebble wrappers arm their notification only under the engine lock; (B4) nothing purges checkpoints inside a restore before the engine is reopened.",
+		NotDecided: "the rocksdb and pebble checkpoints notify \"started\" from a 20 ms timer because those engines do not report when their view is pinned: whether 20 ms suffices is a timing question no static rule decides (stated in DESIGN.md); equality of the restored data with the state at index i (engine behaviour), rsync, repeated/interleaved backups' timing, that the HLL cache flush is complete (cache internals).",
 		Assumptions: []string{"path conditions as in C01"},
 		Run: runC14,
 	})
@@ -89,6 +92,84 @@ func runC14(c *Ctx) {
 		r.Order("C14-B5", u, an.Return().Where("nil or reopen result", func(u *an.Unit, s *an.Site) bool { return !an.ErrorReturn(u, s) && s.Pos > u.Match(closeE)[0].Pos }),
 			[]an.M{an.Call("rockredis.(*RockDB).reOpenEng")}, an.OrderOpts{SkipErrEdges: true, Min: 1})
 	}
+	// B5: reopening the engine drops every cache filled from the previous engine
+	if u := c.unit("C14-B5", "rockredis.(*RockDB).reOpenEng"); u != nil {
+		for _, fc := range []struct{ field, ctor string }{
+			{"rockredis.RockDB.hllCache", "rockredis.newHLLCache("},
+			{"rockredis.RockDB.indexMgr", "rockredis.NewIndexMgr("},
+			{"rockredis.RockDB.wb", "recv.rockEng.DefaultWriteBatch("},
+		} {
+			if !r.Require("C14-B5", u, an.Store(fc.field), "a cache or batch bound to the engine that was just replaced would serve or write back data from after the checkpoint") {
+				continue
+			}
+			for _, s := range u.Match(an.Store(fc.field)) {
+				t := defTermOf(u, s)
+				r.Check("C14-B5", u.Name+": "+fc.field+" is re-created, not kept, when the engine is reopened", u.Pos(s.Pos), strings.HasPrefix(t, fc.ctor), "assigned "+t)
+			}
+		}
+		for _, f := range []string{"rockredis.RockDB.hllCache", "rockredis.RockDB.indexMgr", "rockredis.RockDB.wb"} {
+			r.Order("C14-B5", u, an.Return().Where("success", func(u *an.Unit, s *an.Site) bool { return !an.ErrorReturn(u, s) }),
+				[]an.M{an.Store(f)}, an.OrderOpts{SkipErrEdges: true, Min: 1})
+		}
+	}
+	// B2 (engines): the apply loop is released only once the engine's view is pinned
+	if u := c.unit("C14-B2", "engine.(*memEngCheckpoint).Save"); u != nil {
+		cl := an.AnyCall().Where("close(notify)", func(u *an.Unit, s *an.Site) bool { return s.Builtin == "close" && u.ArgTerm(s, 0) == "p1" })
+		r.Order("C14-B2", u, cl, []an.M{an.Call("engine.(*memEng).GetIterator")}, an.OrderOpts{SkipErrEdges: true, Min: 1})
+		sv := u.Match(an.Call("engine.saveMemDBToFile"))
+		okIt := false
+		if len(sv) == 1 {
+			if id, ok := ast.Unparen(sv[0].Call.Args[0]).(*ast.Ident); ok {
+				o := u.Info().ObjectOf(id)
+				n := 0
+				for _, d := range u.Sites {
+					if d.Kind == flow.SStore && d.Local == o {
+						n++
+						okIt = d.Tuple != nil && strings.HasPrefix(u.C.Term(d.Tuple), "recv.me.GetIterator(")
+					}
+				}
+				okIt = okIt && n == 1
+			}
+		}
+		r.Check("C14-B2", u.Name+": the saved data is read through the iterator pinned before the notification", "", okIt, "")
+	}
+	if u := c.unit("C14-B2", "engine.(*memEng).GetIterator"); u != nil {
+		r.Require("C14-B2", u, an.Call("engine.newMemIterator"), "the checkpoint reads through the locking iterator")
+	}
+	if u := c.unit("C14-B2", "engine.newMemIterator"); u != nil {
+		// creating the iterator is what pins the view: it takes the engine read lock and a read transaction/snapshot
+		r.Require("C14-B2", u, an.AnyCall().Where("engine read lock", func(u *an.Unit, s *an.Site) bool { return strings.HasSuffix(an.CalleeName(s), "RWMutex).RLock") }), "the iterator must hold the engine against close/reopen")
+	}
+	for _, fn := range []string{"engine.(*rockEngCheckpoint).Save", "engine.(*pebbleEngCheckpoint).Save"} {
+		u := c.unit("C14-B2", fn)
+		if u == nil {
+			continue
+		}
+		// these engines cannot report when the view is pinned; the notification is armed (timer) only after the
+		// engine lock is held and the engine is known open, and never fires on the closed-engine path
+		arm := an.Call("time.AfterFunc")
+		lock := an.AnyCall().Where("engine read lock", func(u *an.Unit, s *an.Site) bool { return strings.HasSuffix(an.CalleeName(s), ".RLock") && !s.Deferred })
+		r.Order("C14-B2", u, arm, []an.M{lock}, an.OrderOpts{Min: 1})
+		n := 0
+		for _, l := range u.Lits() {
+			for _, s := range l.Sites {
+				if s.Kind == flow.SCall && s.Builtin == "close" {
+					n++
+				}
+			}
+		}
+		direct := 0
+		for _, s := range u.Sites {
+			if s.Kind == flow.SCall && s.Builtin == "close" {
+				direct++
+			}
+		}
+		r.Check("C14-B2", fn+": the notification is sent from the armed timer only", "", n == 1 && direct == 0, fmt.Sprintf("%d in timer closures, %d direct", n, direct))
+	}
+	// B4: while a checkpoint is being restored nothing may purge checkpoints (the one being copied could be selected)
+	if u := c.unit("C14-B4", "rockredis.(*RockDB).restoreFromPath"); u != nil {
+		r.Order("C14-B4", u, an.Call("rockredis.purgeOldCheckpoint"), []an.M{an.Call("rockredis.(*RockDB).reOpenEng")}, an.OrderOpts{Min: 1})
+	}
 	// B4
 	if u := c.unit("C14-B4", "rockredis.purgeOldCheckpoint"); u != nil {
 		r.Guard("C14-B4", u, an.Call("os.RemoveAll"), "!(sindex >= p2)", an.GuardOpts{Min: 1})
@@ -105,4 +186,32 @@ func runC14(c *Ctx) {
 	if u := c.unit("C14-B4", "rockredis.(*RockDB).SetLatestSnapIndex"); u != nil {
 		r.ArgValues("C14-B4", u, an.Call("sync/atomic.StoreUint64"), 1, []string{"p0"}, 1)
 	}
+}
+
+// defTermOf: the term stored by s; for a plain local on the right-hand side, the term of that local's single definition.
+func defTermOf(u *an.Unit, s *flow.Site) string {
+	if s.RHS == nil {
+		if s.Tuple != nil {
+			return u.C.Term(s.Tuple)
+		}
+		return ""
+	}
+	if id, ok := ast.Unparen(s.RHS).(*ast.Ident); ok {
+		o := u.Info().ObjectOf(id)
+		var defs []string
+		for _, d := range u.Sites {
+			if d.Kind == flow.SStore && d.Local == o {
+				switch {
+				case d.Tuple != nil:
+					defs = append(defs, u.C.Term(d.Tuple))
+				case d.RHS != nil:
+					defs = append(defs, u.C.Term(d.RHS))
+				}
+			}
+		}
+		if len(defs) == 1 {
+			return defs[0]
+		}
+	}
+	return u.C.Term(s.RHS)
 }
